@@ -83,18 +83,25 @@ Lemma absent_none : forall v z, absent z = true -> is_none (sub_obj (etb v) z) =
 Proof. intros v z Ha. apply (absent_sem v z Ha). Qed.
 
 (** * An absent layer on top of a collector: every method answers as before (the hint included) *)
+Lemma has_layer_noflags : forall c, coll_has_layer c = true -> flags_of_root c = noflags.
+Proof. destruct c; cbn; intro H; [discriminate H|reflexivity|reflexivity]. Qed.
+
+(** [max_level_hint]: not when [c] is the bare `Registry` (`registry().with(None)` alone reports OFF by design: `inner_is_registry`). *)
 Lemma absent_layer_call : forall v z c m a, absent z = true -> cscope m = true -> (m = drop_span -> coll_has_layer c = true) ->
+  (m = max_level_hint -> flags_of_root c = noflags) ->
   call (coll_obj (etb v) (CLayered z c)) m a = call (coll_obj (etb v) c) m a.
 Proof.
-  intros v z c m a Ha Hm Hd. pose proof (coll_typed v c m a Hm) as HT.
+  intros v z c m a Ha Hm Hd Hh. pose proof (coll_typed v c m a Hm) as HT.
   rewrite coll_unf_layered. tie3. unfold layered_sem at 1.
   destruct m; try discriminate Hm; crow; rewrite ?(absent_call v z) by (exact Ha || reflexivity);
     rewrite ?(absent_hint v z) by exact Ha; rewrite ?(absent_none v z) by exact Ha; cbn [fst id_res app is_sometimes].
   - rewrite app_nil_r. destruct (call (coll_obj (etb v) c) on_register_dispatch a) as [l r]. simpl in HT. destruct r; try discriminate HT. reflexivity.
-  - destruct (call (coll_obj (etb v) c) register_callsite a) as [l r]. simpl in HT. destruct r; try discriminate HT. reflexivity.
+  - rewrite (register_callsite_v v c a). unfold rc_out, pick_interest_res. rewrite flags_hsf. cbn [negb andb is_never is_sometimes].
+    pose proof (flags_ihsf_always a c) as HA.
+    destruct (ihsf (flags_of_root c)); [rewrite (HA eq_refl); reflexivity|rewrite andb_false_r; reflexivity].
   - destruct (call (coll_obj (etb v) c) enabled a) as [l r]. reflexivity.
-  - cbn [String.eqb Ascii.eqb Bool.eqb orb]. destruct (call (coll_obj (etb v) c) max_level_hint a) as [l r]. simpl in HT.
-    destruct r; try discriminate HT. unfold pick_level_hint. destruct h; [cbn [opt_max]; rewrite N.max_0_l|]; reflexivity.
+  - cbn [String.eqb Ascii.eqb Bool.eqb orb]. rewrite (Hh eq_refl). destruct (call (coll_obj (etb v) c) max_level_hint a) as [l r]. simpl in HT.
+    destruct r; try discriminate HT. unfold pick_level_hint. cbn [iir hsf ihsf noflags andb]. destruct h; [cbn [opt_max]; rewrite N.max_0_l|]; reflexivity.
   - destruct (call (coll_obj (etb v) c) new_span a) as [l r]. simpl in HT. destruct r; try discriminate HT.
     rewrite (absent_call v z) by (exact Ha || reflexivity). cbn [fst]. rewrite app_nil_r. reflexivity.
   - rewrite app_nil_r. destruct (call (coll_obj (etb v) c) record a) as [l r]. simpl in HT. destruct r; try discriminate HT. reflexivity.
@@ -161,10 +168,28 @@ Section V.
     - destruct (call (Co c) clone_span a) as [l r]; destruct r; try reflexivity. rwn H (So x). reflexivity.
     - rewrite !(tie_S 1). unfold layered_sem at 1 3. crow. rwn H (So x). reflexivity.
   Qed.
+  (** `register_callsite` is the one non-hint method of a `Layered` that looks at its flags (`inner_has_subscriber_filter`); the
+      flag only matters when the inner side says `never`, and the one inner side that sets it - the `Registry` - says `always`. *)
+  Lemma pick_res_flags : forall c o a,
+    pick_interest_res (flags_of_root c) o (snd (rc_coll a c)) = pick_interest_res noflags o (snd (rc_coll a c)).
+  Proof.
+    intros c o a. unfold pick_interest_res. rewrite flags_hsf. cbn [hsf ihsf noflags]. pose proof (flags_ihsf_always a c) as HA.
+    destruct (ihsf (flags_of_root c)); [rewrite (HA eq_refl); reflexivity|reflexivity].
+  Qed.
+  Lemma layered_rc_cong : forall s x y a, call (Co x) register_callsite a = call (Co y) register_callsite a ->
+    call (Co (CLayered s x)) register_callsite a = call (Co (CLayered s y)) register_callsite a.
+  Proof.
+    intros s x y a H. rewrite !coll_unf_layered. tie3. unfold layered_sem at 1 3. crow.
+    rewrite !(register_callsite_v v) in *. unfold rc_out in *. injection H as E1 E2. rewrite !flags_hsf.
+    destruct (call (So s) register_callsite a) as [lo ro]. destruct ro; try reflexivity.
+    destruct (negb false && is_never i); [reflexivity|]. rewrite (pick_res_flags x), (pick_res_flags y), E1, E2. reflexivity.
+  Qed.
+
   Lemma cong_nh_layered_c : forall s x y, coq_nh (Co x) (Co y) -> coq_nh (Co (CLayered s x)) (Co (CLayered s y)).
   Proof.
-    intros s x y H m a Hm. rewrite !coll_unf_layered. tie3. unfold layered_sem at 1 3.
-    destruct m; try discriminate Hm; crow; rwn H (Co x); try reflexivity.
+    intros s x y H m a Hm. destruct (meth_eq_dec m register_callsite) as [->|Hrc]; [apply layered_rc_cong; apply H; reflexivity|].
+    rewrite !coll_unf_layered. tie3. unfold layered_sem at 1 3.
+    destruct m; try discriminate Hm; try congruence; crow; rwn H (Co x); try reflexivity.
     rewrite !(tie_S 1). unfold layered_sem at 1 3. crow. rwn H (Co x). reflexivity.
   Qed.
   Lemma cong_nh_cwrap : forall w x y, coq_nh (Co x) (Co y) -> coq_nh (Co (CWrap w x)) (Co (CWrap w y)).
@@ -222,7 +247,8 @@ Section V.
       cbn [fst id_res];
       destruct (call (sub_obj _ x) _ a) as [l r]; simpl in HT; destruct r; try discriminate HT; cbn [fst app is_sometimes];
       rewrite ?app_nil_r; try reflexivity.
-    destruct v; reflexivity.
+    - destruct v; reflexivity.
+    - destruct i; reflexivity.
   Qed.
   Lemma absent_pair_i : forall z x, absent z = true -> seq_nh (So (SPair x z)) (So x).
   Proof.
@@ -270,7 +296,7 @@ Theorem absent_layer_v : forall v K z c ops, absent z = true -> coll_has_layer c
   run_case (etb v) (kplug K (CLayered z c)) ops = run_case (etb v) (kplug K c) ops.
 Proof.
   intros v K z c ops Ha Hl Ho. apply run_case_nh; [| |exact Ho].
-  - apply kplug_nh. intros m a Hm. apply absent_layer_call; [exact Ha|apply cscope_nh_c; exact Hm|intros _; exact Hl].
+  - apply kplug_nh. intros m a Hm. apply absent_layer_call; [exact Ha|apply cscope_nh_c; exact Hm|intros _; exact Hl|intros _; apply has_layer_noflags; exact Hl].
   - apply build_log_kplug. cbn [build_log]. rewrite (absent_call v z on_subscribe arg0 Ha eq_refl). apply app_nil_r.
 Qed.
 
@@ -279,9 +305,10 @@ Lemma absent_layer_nodrop : forall v K z c, absent z = true -> forall m a, cscop
   call (coll_obj (etb v) (kplug K (CLayered z c))) m a = call (coll_obj (etb v) (kplug K c)) m a.
 Proof.
   intros v K z c Ha. induction K; intros m a Hm Hn; cbn [kplug].
-  - apply absent_layer_call; [exact Ha|apply cscope_nh_c; exact Hm|intro E; contradiction].
+  - apply absent_layer_call; [exact Ha|apply cscope_nh_c; exact Hm|intro E; contradiction|intro E; subst m; discriminate Hm].
   - rewrite !cwrap_call by (apply cscope_nh_c; exact Hm). apply IHK; assumption.
-  - rewrite !coll_unf_layered. tie3. unfold layered_sem at 1 3.
+  - destruct (meth_eq_dec m register_callsite) as [->|Hrc]; [apply layered_rc_cong; apply IHK; [reflexivity|discriminate]|].
+    rewrite !coll_unf_layered. tie3. unfold layered_sem at 1 3.
     destruct m; try discriminate Hm; try congruence; crow;
       repeat match goal with |- context [call (coll_obj (etb v) (kplug K (CLayered z c))) ?m' ?a'] =>
                rewrite (IHK m' a' eq_refl) by discriminate end; reflexivity.
@@ -325,7 +352,7 @@ Proof.
   intros v ws z c ops Ha Hl.
   assert (HC : forall m a, cscope m = true -> call (coll_obj (etb v) (cwrap_nest ws (CLayered z c))) m a = call (coll_obj (etb v) (cwrap_nest ws c)) m a).
   { induction ws as [|w ws IH]; intros m a Hm; cbn [cwrap_nest fold_right].
-    - apply absent_layer_call; [exact Ha|exact Hm|intros _; exact Hl].
+    - apply absent_layer_call; [exact Ha|exact Hm|intros _; exact Hl|intros _; apply has_layer_noflags; exact Hl].
     - rewrite !cwrap_call by exact Hm. apply IH; exact Hm. }
   unfold run_case. f_equal; [f_equal|].
   - rewrite !build_log_cwrap_nest. cbn [build_log]. rewrite (absent_call v z on_subscribe arg0 Ha eq_refl). apply app_nil_r.
@@ -365,7 +392,7 @@ Lemma absent_layer_hint_call : forall v K z c, absent z = true -> coll_has_layer
 Proof.
   intros v K z c Ha Hl. induction K; cbn [kplug no_off]; intro Hn.
   - split.
-    + intros m a Hm. apply absent_layer_call; [exact Ha|exact Hm|intros _; exact Hl].
+    + intros m a Hm. apply absent_layer_call; [exact Ha|exact Hm|intros _; exact Hl|intros _; apply has_layer_noflags; exact Hl].
     + rewrite layered_none, (absent_none v z Ha). reflexivity.
   - destruct (IHK Hn) as [HC HN]. split.
     + intros m a Hm. rewrite !cwrap_call by exact Hm. apply HC; exact Hm.
@@ -375,11 +402,14 @@ Proof.
       * apply cong_nh_layered_c; [|unfold cscope_nh; rewrite Hm, Eh; reflexivity].
         intros m' a' Hm'. apply HC. apply cscope_nh_c; exact Hm'.
       * destruct m; try discriminate Eh. specialize (Hoff a).
-        rewrite !coll_unf_layered. tie3. unfold layered_sem at 1 3. crow. cbn [String.eqb Ascii.eqb Bool.eqb orb].
+        rewrite !coll_unf_layered.
+        replace (flags_of_root (kplug K (CLayered z c))) with noflags by (destruct K; reflexivity).
+        replace (flags_of_root (kplug K c)) with noflags by (destruct K; cbn [kplug]; try reflexivity; symmetry; apply has_layer_noflags; exact Hl).
+        tie3. unfold layered_sem at 1 3. crow. cbn [String.eqb Ascii.eqb Bool.eqb orb].
         rewrite (HC max_level_hint a eq_refl), HN.
         destruct (call (sub_obj (etb v) s) max_level_hint a) as [lo ro].
         destruct (call (coll_obj (etb v) (kplug K c)) max_level_hint a) as [li ri]. cbn [snd] in Hoff.
-        destruct ro; try reflexivity. destruct ri; try reflexivity. unfold pick_level_hint.
+        destruct ro; try reflexivity. destruct ri; try reflexivity. unfold pick_level_hint. cbn [iir hsf ihsf noflags andb].
         destruct (is_none (sub_obj (etb v) s)); [reflexivity|]. cbn [andb].
         destruct h0 as [[|p]|]; [exfalso; apply Hoff; reflexivity| |]; rewrite ?andb_false_r; reflexivity.
     + rewrite layered_none, HN. apply orb_true_r.
